@@ -617,11 +617,14 @@ where
 		let mut is_init_secure_api = OwnerV3Helpers::is_init_secure_api(&val);
 		let mut was_encrypted = false;
 		let mut encrypted_req_id = JsonId::StrId(String::from(""));
+		// one session key per request: the reply is sealed under the key the request was opened
+		// with, whatever another connection does to the listener's key in the meantime
+		let req_key = Arc::new(Mutex::new(key.lock().clone()));
 		if !is_init_secure_api {
-			if let Err(v) = OwnerV3Helpers::check_encryption_started(key.clone()) {
+			if let Err(v) = OwnerV3Helpers::check_encryption_started(req_key.clone()) {
 				return Ok(v);
 			}
-			let res = OwnerV3Helpers::decrypt_request(key.clone(), &val);
+			let res = OwnerV3Helpers::decrypt_request(req_key.clone(), &val);
 			match res {
 				Err(e) => return Ok(e),
 				Ok(v) => {
@@ -644,7 +647,7 @@ where
 				}
 				if was_encrypted {
 					let res = OwnerV3Helpers::encrypt_response(
-						key.clone(),
+						req_key.clone(),
 						&encrypted_req_id,
 						&unencrypted_intercept,
 					);
